@@ -5,7 +5,7 @@ Every builder returns (pdf bytes, meta).  variant 0 / 1 choose between direct an
 two text-string encodings, and omitted defaults."""
 from __future__ import annotations
 
-from .pdfwriter import Name, Ref, Revision, build
+from .pdfwriter import HexStr, Name, Ref, Revision, build
 
 # ------------------------------------------------------------------------------------------------ PDFDocEncoding
 _DOC_SPECIAL = {
@@ -99,11 +99,21 @@ class _Objs:
 
 
 ENTRY_CLASSES = {
-    "labels": ("S", "P", "St", "key", "arr", "lim"),        # /S /P /St values, /Nums keys, /Nums /Kids /Limits arrays, /Limits elements
+    "labels": ("S", "P", "St", "key", "arr", "lim", "P-empty"),   # /S /P /St values, /Nums keys, /Nums /Kids /Limits arrays, /Limits elements
     "numtree": ("S", "P", "key", "val", "arr", "lim"),      # + the label dictionaries
-    "dests": ("key", "val", "arr", "lim", "D"),             # /Names keys and values, arrays, /Limits elements, /D of a dictionary value
-    "outline": ("Title", "Count", "A", "AS", "AD"),         # /Title, /Count, the action dictionary, its /S and /D
+    "dests": ("key", "val", "arr", "lim", "D", "k-empty"),  # /Names keys and values, arrays, /Limits elements, /D of a dictionary value
+    "outline": ("Title", "Count", "A", "AS", "AD", "T-empty"),   # /Title, /Count, the action dictionary, its /S and /D
 }
+# the "-empty" classes are not about indirectness but about the value classes of text strings: an empty string is a
+# string (written as the literal (), as the hexadecimal <>, or as the bare byte order mark <FEFF>):
+#   P-empty  an empty prefix is written out as /P instead of being left out
+#   k-empty  the least key of the name tree (and the name of the /Dests entry spelled like it) is the empty string
+#   T-empty  every third outline item has an empty /Title
+
+
+def empty_text(n):
+    """the n-th spelling of an empty text string"""
+    return [b"", HexStr(b""), HexStr(b"\xfe\xff")][n % 3]
 
 
 def entry_classes(kind, variant, mask):
@@ -122,6 +132,8 @@ def label_dict(style, prefix, st, variant, o=None):
         d["S"] = o.ind(Name(style), "S")
     if prefix != "":
         d["P"] = o.ind(encode_text(prefix, utf16=(variant == 1)), "P")
+    elif "P-empty" in o.deep:
+        d["P"] = o.ind(empty_text(st), "P")
     if st != 1 or variant >= 1:
         d["St"] = o.ind(st, "St")
     return d
@@ -189,10 +201,15 @@ def numtree_doc(tree, npages, variant, mask=-1):
 KEY_BYTES = {1: b"A", 2: b"Aa", 3: b"B", 4: b"Ba", 5: b"C", 6: b"a", 7: b"aa", 8: b"b"}      # ascending in byte order
 
 
+def key_bytes(k, deep):
+    return b"" if (k == 1 and "k-empty" in deep) else KEY_BYTES[k]
+
+
 def _name_node(o, t, value_of, variant, root=False):
+    KEY_BYTES = {k: key_bytes(k, o.deep) for k in globals()["KEY_BYTES"]}
     d = {}
     if t["leaf"]:
-        d["Names"] = [x for k in t["keys"] for x in (o.ind(KEY_BYTES[k], "key"), o.ind(value_of(k), "val"))]
+        d["Names"] = [x for k in t["keys"] for x in (o.ind(HexStr(b"") if (KEY_BYTES[k] == b"" and o.nxt % 2) else KEY_BYTES[k], "key"), o.ind(value_of(k), "val"))]
         if variant == 1:
             d["Names"] = o.new(d["Names"])
         d["Names"] = o.ind(d["Names"], "arr") if variant == 2 else d["Names"]
@@ -222,16 +239,23 @@ def dests_doc(tree, hastree, dictkeys, hasdict, variant, nkeys=8, mask=-1):
         names = {"Dests": o.new(root)}
         cat["Names"] = o.new(names) if variant >= 1 else names
     if hasdict:
-        d = {KEY_BYTES[k].decode(): o.ind([Ref(o.page_ids[nkeys + k]), Name("XYZ"), 0, 0, 0], "val") for k in sorted(dictkeys)}
+        d = {key_bytes(k, o.deep).decode(): o.ind([Ref(o.page_ids[nkeys + k]), Name("XYZ"), 0, 0, 0], "val") for k in sorted(dictkeys)}
         cat["Dests"] = o.new(d) if variant >= 1 else d
-    return o.finish(cat, variant), {"pages": o.page_ids, "nkeys": nkeys, "deep": o.deep}
+    return o.finish(cat, variant), {"pages": o.page_ids, "nkeys": nkeys, "deep": o.deep, "keys": {k: key_bytes(k, o.deep) for k in KEY_BYTES}}
 
 
 TITLE_EXTRA = ["", "•", "Ł", "€"]      # characters PDFDocEncoding has outside Latin-1
 
 
-def outline_title(i, variant):
+def outline_title(i, variant, deep=frozenset()):
+    if "T-empty" in deep and i % 3 == 1:
+        return ""
     return "T%d%s" % (i, TITLE_EXTRA[i % 4] if variant >= 1 else "")
+
+
+def title_value(i, variant, deep):
+    t = outline_title(i, variant, deep)
+    return empty_text(i // 3) if t == "" else encode_text(t, utf16=(variant >= 1 and i % 2 == 0))
 
 
 def outline_doc(n, lev, tgt, variant, mask=-1):
@@ -275,7 +299,7 @@ def outline_doc(n, lev, tgt, variant, mask=-1):
     for i in range(0, n + 1):
         ch = children(i)
         d = {"Type": Name("Outlines")} if i == 0 else {
-            "Title": o.ind(encode_text(outline_title(i, variant), utf16=(variant >= 1 and i % 2 == 0)), "Title"),
+            "Title": o.ind(title_value(i, variant, o.deep), "Title"),
             "Parent": Ref(ids[parent(i)] if parent(i) else root_id)}
         if ch:
             d["First"] = Ref(ids[ch[0]])
